@@ -78,7 +78,12 @@ func (m MsgSum) String() string {
 }
 
 // Summarise reads every observable field of a message through its public accessors.
-func Summarise(msg datatransfer.Message) MsgSum {
+func Summarise(msg datatransfer.Message) (out MsgSum) {
+	simrt.Quiet(func() { out = summarise(msg) })
+	return out
+}
+
+func summarise(msg datatransfer.Message) MsgSum {
 	s := MsgSum{Req: msg.IsRequest(), TID: msg.TransferID(), New: msg.IsNew(), Restart: msg.IsRestart(), Update: msg.IsUpdate(), Cancel: msg.IsCancel(), Paused: msg.IsPaused()}
 	if req, ok := msg.(datatransfer.Request); ok && msg.IsRequest() {
 		s.Voucher = req.IsVoucher()
@@ -520,15 +525,59 @@ func (n *Node) Crash(at int) bool {
 	return true
 }
 
-// StopClean stops the manager in an orderly way.
-func (n *Node) StopClean() {
-	_ = n.Mgr.Stop(context.Background())
+// StopTracked calls Manager.Stop as a tracked call (it must return: C20) and waits for it - without letting simulated
+// time pass when tight is set - for at most two simulated minutes. It reports whether Stop returned.
+func (n *Node) StopTracked(tight bool) bool {
+	m := n.Mgr
+	c := n.r.OpE(n.Name, "Manager.Stop", func() error { return m.Stop(context.Background()) })
+	if tight {
+		for i := 0; i < 20000 && !c.Returned; i++ {
+			simrt.Yield("stop.wait")
+		}
+	}
+	for i := 0; i < 120 && !c.Returned; i++ {
+		simrt.Sleep(time.Second)
+	}
+	if LogAll {
+		n.w.Logf("APP %s Manager.Stop returned=%v", n.Name, c.Returned)
+	}
+	return c.Returned
+}
+
+// StopClean stops the manager in an orderly way (the process then exits: its endpoints disappear).
+func (n *Node) StopClean() bool { return n.stopClean(false) }
+
+func (n *Node) stopClean(tight bool) bool {
+	ok := n.StopTracked(tight)
+	if ok && !tight {
+		// "leaves no goroutine blocked on library locks": give everything a moment, then look for tasks of this node that
+		// still wait for a mutex
+		simrt.Sleep(time.Minute)
+		var stuck []*simrt.Task
+		for _, t := range n.w.S.BlockedTasks() {
+			if t.Label == n.Name && t.WaitsOn != nil {
+				stuck = append(stuck, t)
+			}
+		}
+		if len(stuck) > 0 {
+			stks := n.w.S.StacksOf(stuck)
+			for _, t := range stuck {
+				why, rootStk := stuckRoot(n.w.S, t, stks[t.ID])
+				sig := why // the root of the wait-for chain names the defect; the victim's own frame only when there is no root
+				if sig == "" {
+					sig = "at:" + rootFrame(stks[t.ID])
+				}
+				n.r.Fail("C20", "blocked-on-lock-after-stop", sig, fmt.Sprintf("Manager.Stop of node %s returned, yet task %s still waits for a library lock one simulated minute later\n%s%s", n.Name, t.ID, shortStack(stks[t.ID]), rootStk))
+			}
+		}
+	}
 	n.Up = false
 	n.life++
 	n.w.GS.Kill(n.ID)
 	n.Host.Kill()
 	n.Disk = n.Disk.Reopen(len(n.Disk.Log))
 	n.Vals = map[datatransfer.TypeIdentifier]*Validator{}
+	return ok
 }
 
 // EventsOf returns this node's announced events for a channel (all lives).
